@@ -17,21 +17,38 @@ def line_for(pid):
     return "Measured on the last %s run (%.0f s): %s." % (e.get("tier", "quick"), e.get("wall_s", 0), "; ".join(parts))
 
 
+def stages_for(pid):
+    sys.path.insert(0, os.path.join(VERIF, "tools"))
+    import props
+    if pid not in props.PROPS:
+        return None
+    q = [f.__name__ for f in props.PROPS[pid]["stages"]("quick", 1)]
+    t = [f.__name__ for f in props.PROPS[pid]["stages"]("thorough", 1)]
+    return "Stages (generated from tools/props.py): quick = %s; thorough = %s." % (", ".join("`%s`" % x for x in q), ", ".join("`%s`" % x for x in t))
+
+
 def main():
     path = os.path.join(VERIF, "DESIGN.md")
-    lines = open(path).read().split("\n")
+    lines = [l for l in open(path).read().split("\n") if not l.startswith("Stages (generated from tools/props.py)")]
     cur = None
     n = 0
-    for i, l in enumerate(lines):
+    out = []
+    for l in lines:
         m = re.match(r"### (C\d\d) ", l)
         if m:
             cur = m.group(1)
         if cur and l.startswith("Measured on the last "):
             new = line_for(cur)
             if new:
-                lines[i] = new
+                l = new
                 n += 1
-    open(path, "w").write("\n".join(lines))
+            out.append(l)
+            st = stages_for(cur)
+            if st:
+                out.append(st)
+            continue
+        out.append(l)
+    open(path, "w").write("\n".join(out))
     print("rewrote %d line(s)" % n)
 
 
